@@ -18,7 +18,8 @@ EXTENDS Naturals, FiniteSets, TLC, Json
 CONSTANTS Classes,    \* object levels of the signed portion
           Dropped     \* classes whose unknown members the parser does not keep
 
-Mutations == {"change", "delete", "insert", "reorder", "reformat", "extra-signature", "type-tag", "role-swap", "foreign"}
+\* "respell": the same JSON value in another spelling of its strings (escape sequences)
+Mutations == {"change", "delete", "insert", "reorder", "reformat", "respell", "extra-signature", "type-tag", "role-swap", "foreign"}
 
 VARIABLES cls, mut
 vars == <<cls, mut>>
@@ -40,7 +41,7 @@ Served ==
     [] mut = "type-tag"  -> (Original \ {<<"tag", "own-role">>}) \cup {<<"tag", "other-role">>}
     [] mut = "role-swap" -> (Original \ {<<"tag", "own-role">>}) \cup {<<"tag", "other-role">>}
     [] mut = "foreign" -> Original \cup {<<cls, "foreign">>}
-    [] OTHER -> Original            \* re-ordering, re-formatting, extra signature entry: same content
+    [] OTHER -> Original            \* re-ordering, re-formatting, re-spelling, extra signature entry: same content
 SignedOver ==
   CASE mut = "foreign"   -> Served                     \* the other implementation signed everything
     [] mut = "role-swap" -> Served                     \* validly signed, but for the other role
@@ -56,7 +57,7 @@ AlterationsRejected ==
 \* an inserted unknown member, or a rewritten role tag, is either refused or not used at all (the
 \* tag is emitted from the Rust type, not copied from the input)
 InsertRejectedOrDropped == mut \in {"insert", "type-tag"} => (~Accept \/ Used = Original)
-HarmlessAccepted == mut \in {"reorder", "reformat", "extra-signature"} => Accept
+HarmlessAccepted == mut \in {"reorder", "reformat", "respell", "extra-signature"} => Accept
 ForeignMembersVerify == mut = "foreign" /\ cls \notin Dropped => Accept
 \* known finding F11: the classes in Dropped reject validly signed foreign documents
 ForeignAtDroppedRejected == mut = "foreign" /\ cls \in Dropped => ~Accept
